@@ -31,7 +31,7 @@ ASSUMPTIONS = [
 CASES = {"quick": 960, "thorough": 40000}
 MIN_CASES = {"quick": 240, "thorough": 10000}
 REQUIRED_COUNTERS = ["pairs_compared", "parent_pristine_checked", "fresh_interpreter_crosschecks", "probe:netlist", "probe:die", "probe:die_refine", "probe:alloc", "probe:stog",
-                     "probe:pb", "probe:legal", "probe:strop", "near_threshold_probes", "history_ops_executed", "history_scale_extreme_low", "history_scale_extreme_high", "history_near_copies_of_the_probe", "history_same_design_loaded_and_mutated"]
+                     "probe:pb", "probe:legal", "probe:strop", "near_threshold_probes", "history_ops_executed", "history_scale_extreme_low", "history_scale_extreme_high", "history_near_copies_of_the_probe", "history_same_design_loaded_and_mutated", "probe:heule_deep"]
 SOFT_DEADLINE = {"quick": 240, "thorough": 3300}
 KINDS = ["netlist", "die", "die_refine", "alloc", "stog", "pb", "strop", "legal"]
 
@@ -174,6 +174,13 @@ def near_copy(rng, probe):
 
 
 def generate(rng, tier, i):
+    if i % 40 == 23:
+        # a deep-recursion operation probed after histories with very large encodings (interpreter-wide settings must not leak)
+        probe = {"k": "heule_deep", "n": rng.choice([600, 1500, 1900, 2500])}
+        hist = [gen_op(rng, rng.choice(["strop", "pb", "die"])) for _ in range(rng.randint(2, 5))]
+        for _ in range(rng.randint(1, 2)):
+            hist.insert(rng.randint(0, len(hist)), {"k": "pb_big", "n": rng.choice([300, 450, 700]), "bound": rng.choice([1, 2, 3]), "decomp": rng.random() < 0.3})
+        return {"cls": "heule_deep", "probe": probe, "history": hist, "crosscheck": False}
     kind = KINDS[i % len(KINDS)] if (i % 40) != 39 else "legal"
     if kind == "legal" and (i % 40) != 39 and rng.random() < 0.7:
         kind = rng.choice(KINDS[:-1])
